@@ -19,7 +19,7 @@ ASSUMPTIONS = ["band: -eps <= v*-x <= threshold*T + eps, T = exact max expected 
 TIMEOUT = 1800
 
 CLASSES_Q = [("G-ACY", 700), ("G-ACYNF", 200), ("G-CYC", 700), ("G-CYCNF", 150), ("G-SLOW", 250), ("G-EC", 500),
-             ("G-TIE", 250), ("G-TIEC", 250), ("G-DEAD", 500), ("G-TINY", 150), ("G-LEX", 250), ("G-TINYB", 200), ("G-INIT0F", 100), ("G-INIT0NF", 100), ("G-NOREACH", 100), ("G-NEARC", 100), ("G-MIX", 500)]
+             ("G-TIE", 250), ("G-TIEC", 250), ("G-DEAD", 500), ("G-TINY", 150), ("G-LEX", 250), ("G-TINYB", 200), ("G-INIT0F", 100), ("G-INIT0NF", 100), ("G-NOREACH", 100), ("G-NEARC", 100), ("G-MIX", 500), ("G-SMALLX", 500)]
 THRESHOLDS = [1e-2, 1e-4, 1e-9]
 
 
@@ -65,7 +65,31 @@ def decide(gd, idx, cls, do_thresholds=True, do_run_games=False):
     res["stats"]["max_steps"] = max(out_n.steps, out_p.steps)
     problems = []
     if out_n.status != "ok":
-        res.update(verdict="inconclusive", what="unpruned solve gave no result: %s" % out_n.brief())
+        # outside the stopping games the reward iteration may never end; the reachability phase is still observable on its own
+        xr = None
+        if out_n.status == "budget" and (out_n.diag or {}).get("phase") == "total_rewards":
+            try:
+                game = games.to_solver(gd)
+                sg = tad.StochasticGame(**game)
+                sg.check_game()
+                solver = tad.Solver(threshold=1e-6, state_list=sg.init_states())
+                with monitors.budget(limit):
+                    solver.solve_reachability(game["transition_list"], game["final_states"], False)
+                xr = [s_.reach_probability for s_ in solver.state_list]
+            except monitors.StepBudgetExceeded:
+                xr = None
+            finally:
+                monitors.MON.metering = False
+        if xr is None:
+            res.update(verdict="inconclusive", what="unpruned solve gave no result: %s" % out_n.brief())
+            return res
+        res["stats"]["reach_phase_only"] = 1
+        pr, st = analysis.check_probabilities(an, xr)
+        res["stats"]["states_compared"] = st["states"]
+        res["stats"]["max_err_over_band"] = st["max_err_over_band"]
+        if pr:
+            res.update(verdict="violated", what="%s (state %s, reachability phase)" % (pr[0]["problem"], pr[0].get("state")), witness=pr[:4],
+                       case={"game": games.enc_game(gd)})
         return res
     x = out_n.result[3]
     res["stats"]["max_iterations_reach"] = out_n.result[4]
